@@ -23,6 +23,8 @@ THEOREMS = [
     "Aio.C16.secure_only_https",
     "Aio.C16.not_after_expiry",
     "Aio.C16.nothing_withheld",
+    "Aio.C16.eviction_complete",
+    "Aio.C16.cleanup_keeps_live_entries",
     "Aio.C16.jar_refines_refstore_partial",
     "Aio.C16.cross_site_cannot_set_or_overwrite",
     "Aio.C16.identical_reset_becomes_host_only",
@@ -40,7 +42,7 @@ RULE = ("histories of 3-16 operations over a host lattice (example.com, sub./a.s
         "neighbours and 4 schemes: responses carrying 1-3 Set-Cookie headers (Domain from the same lattice incl. leading/"
         "trailing dot, upper case, foreign and IP; Path; Secure; Max-Age incl. 0/negative/invalid; Expires in three date "
         "formats incl. the epoch and garbage), clock advances, clear, clear_domain, save+load, filter_cookies queries. "
-        "Generator classes: one-attribute pairs (two consecutive Set-Cookie of one site differing in exactly one of value/Domain/Path/Secure/HttpOnly/Max-Age/Expires, or in nothing), acceptance, selection, expiry/overwrite, heap-pressure (>100 stale heap entries), persistence, IP-address hosts (unsafe jar), "
+        "Generator classes: heap clean-up at its threshold timed against passing deadlines (35-75 sliding cookies), Set-Cookie headers with shuffled/re-cased attributes and one non-attribute token in any position, one-attribute pairs (two consecutive Set-Cookie of one site differing in exactly one of value/Domain/Path/Secure/HttpOnly/Max-Age/Expires, or in nothing), acceptance, selection, expiry/overwrite, heap-pressure (>100 stale heap entries), persistence, IP-address hosts (unsafe jar), "
         "malformed headers (correspondence only), ClientSession end-to-end. A history is non-trivial when at least one "
         "query returns a cookie or one cookie is refused; distinct by content.")
 TRUSTED_BASE = [
@@ -115,6 +117,8 @@ MON = ["Jan", "Feb", "Mar", "Apr", "May", "Jun", "Jul", "Aug", "Sep", "Oct", "No
 
 def fmt_date(ts, style):
     t = _time.gmtime(ts)
+    if style == 3:   # RFC 1123 without a zone (still a date for the RFC 6265 5.1.1 algorithm)
+        return f"{WD[t.tm_wday]}, {t.tm_mday:02d} {MON[t.tm_mon-1]} {t.tm_year:04d} {t.tm_hour:02d}:{t.tm_min:02d}:{t.tm_sec:02d}"
     if style == 0:   # RFC 1123
         return f"{WD[t.tm_wday]}, {t.tm_mday:02d} {MON[t.tm_mon-1]} {t.tm_year:04d} {t.tm_hour:02d}:{t.tm_min:02d}:{t.tm_sec:02d} GMT"
     if style == 1:   # RFC 850
@@ -122,24 +126,84 @@ def fmt_date(ts, style):
     return f"{WD[t.tm_wday]} {MON[t.tm_mon-1]} {t.tm_mday:2d} {t.tm_hour:02d}:{t.tm_min:02d}:{t.tm_sec:02d} {t.tm_year:04d}"  # asctime
 
 
+ATTR_ORDER = ["domain", "path", "secure", "maxage", "expires", "httponly"]
+JUNK_SIG = {
+    "valueless": "C16/parse/valueless-token-drops-following-attributes",
+    "barepath": "C16/parse/bare-path-drops-following-attributes",
+    "nozone": "C16/parse/date-without-zone-not-parsed",
+    "valued": "C16/parse/unknown-attribute-with-value-becomes-cookie",
+}
+
+
+def attr_tokens(c):
+    """[(key, header text)] in header order; key "junk" marks a token that is not a cookie attribute of RFC 6265"""
+    toks = []
+    for k in c.get("order") or ATTR_ORDER:
+        if k == "domain" and c.get("domain") is not None:
+            toks.append((k, f"Domain={c['domain']}"))
+        elif k == "path" and c.get("path") is not None:
+            toks.append((k, f"Path={c['path']}"))
+        elif k == "secure" and c.get("secure"):
+            toks.append((k, "Secure"))
+        elif k == "maxage" and c.get("maxage") is not None:
+            toks.append((k, f"Max-Age={c['maxage']}"))
+        elif k == "expires" and c.get("expires") is not None:
+            e = c["expires"]
+            toks.append((k, "Expires=" + (fmt_date(e[1], e[2]) if e[0] == "ts" else e[1])))
+        elif k == "httponly" and c.get("httponly"):
+            toks.append((k, "HttpOnly"))
+    j = c.get("junk")
+    if j:
+        toks.insert(min(j["pos"], len(toks)), ("junk", j["text"]))
+    cs = c.get("case")
+    if cs:
+        def recase(t):
+            a, eq, b = t.partition("=")
+            return (a.lower() if cs == "lower" else a.upper()) + eq + b
+        toks = [(k, recase(t) if k != "junk" else t) for k, t in toks]
+    return toks
+
+
 def header_of(c):
     if "hdr" in c:
         return c["hdr"]
-    s = f"{c['name']}={c['value']}"
-    if c.get("domain") is not None:
-        s += f"; Domain={c['domain']}"
-    if c.get("path") is not None:
-        s += f"; Path={c['path']}"
-    if c.get("secure"):
-        s += "; Secure"
-    if c.get("maxage") is not None:
-        s += f"; Max-Age={c['maxage']}"
+    return "; ".join([f"{c['name']}={c['value']}"] + [t for _, t in attr_tokens(c)])
+
+
+def nozone(c):
     e = c.get("expires")
-    if e is not None:
-        s += "; Expires=" + (fmt_date(e[1], e[2]) if e[0] == "ts" else e[1])
-    if c.get("httponly"):
-        s += "; HttpOnly"
-    return s
+    return e is not None and e[0] == "ts" and e[2] == 3
+
+
+def junk_kinds(c):
+    ks = []
+    if c.get("junk"):
+        ks.append(c["junk"]["kind"])
+    if nozone(c):
+        ks.append("nozone")
+    return ks
+
+
+def as_aiohttp_reads(c):
+    """the cookie descriptions aiohttp's Set-Cookie parser makes of a header with a non-attribute token (used only
+    to attribute a disagreement to that known parser behaviour, never to judge)"""
+    cur = {"name": c["name"], "value": c["value"]}
+    out = [cur]
+    for k, _ in attr_tokens(c):
+        if k == "junk":
+            j = c["junk"]
+            if j["kind"] == "benign":
+                continue
+            if j["kind"] in ("valueless", "barepath"):
+                break
+            cur = {"name": j["name"], "value": j["value"]}
+            out.append(cur)
+        elif k == "expires" and nozone(c):
+            cur["expires"] = ["raw", "Wed,"]
+            break
+        else:
+            cur[k] = c[k]
+    return out
 
 
 def intent_att_maxage(c):
@@ -388,6 +452,120 @@ class Gen:
         for h in qhosts:
             for sch in ("http", "https"):
                 ops.append(["F", f"{sch}://{h}{r.choice(qpaths)}"])
+        ops.append(["X"])
+        return ops
+
+    def parse_tolerance(self):
+        """Set-Cookie headers with attributes in any order and any case, and with one token that is not an RFC 6265
+        attribute in any position: a valueless token (`Foo`), a bare `Path`, an unknown attribute with a value
+        (`Priority=High`), a date without zone, or a harmless known one (`SameSite=Lax`, `Partitioned`)"""
+        r = self.rng
+        H = r.choice(["example.com", "sub.example.com"])
+        url = f"{r.choice(['http', 'https'])}://{H}{r.choice(['/', '/x/y', '/x/'])}"
+        ops = []
+        self.n += 1
+        name = r.choice(["a", "sid"])
+        if r.random() < 0.4:      # an earlier plain cookie that the odd header is meant to replace
+            ops.append(["S", url, [{"name": name, "value": f"v{self.n}", "path": "/"}]])
+            self.n += 1
+        c = {"name": name, "value": f"v{self.n}"}
+        if r.random() < 0.5:
+            c["domain"] = r.choice(["example.com", ".example.com", H])
+        if r.random() < 0.6:
+            c["path"] = r.choice(["/", "/x", "/x/y"])
+        if r.random() < 0.6:
+            c["secure"] = True
+        if r.random() < 0.3:
+            c["httponly"] = True
+        x = r.random()
+        if x < 0.35:
+            c["maxage"] = r.choice(["0", "30", "60"])
+        elif x < 0.7:
+            c["expires"] = ["ts", NOW0 + r.choice([-100, 30, 60]), r.choice([0, 1, 2, 3, 3])]
+        order = list(ATTR_ORDER)
+        r.shuffle(order)
+        c["order"] = order
+        if r.random() < 0.4:
+            c["case"] = r.choice(["lower", "upper"])
+        k = r.choice(["valueless", "valueless", "valued", "valued", "barepath", "benign", "none"])
+        pos = r.randint(0, 4)
+        if k == "valueless":
+            c["junk"] = {"kind": k, "pos": pos, "text": r.choice(["Foo", "SameParty", "x-flag"])}
+        elif k == "valued":
+            self.n += 1
+            jn = r.choice(["Priority", "Foo", "Max_Age"])
+            c["junk"] = {"kind": k, "pos": pos, "text": f"{jn}=p{self.n}", "name": jn, "value": f"p{self.n}"}
+        elif k == "barepath" and "path" not in c:
+            c["junk"] = {"kind": k, "pos": pos, "text": r.choice(["Path", "path"])}
+        elif k == "benign":
+            c["junk"] = {"kind": k, "pos": pos, "text": r.choice(["SameSite=Lax", "Partitioned", "Version=1", "Comment=c"])}
+        ops.append(["S", url, [c]])
+        if r.random() < 0.3:
+            ops.append(["L"])
+        ops.append(["T", r.choice([1, 31, 61, 100])])
+        for h in dict.fromkeys([H, "sub." + H, "example.com", "other.example.com"]):
+            for sch in ("http", "https"):
+                ops.append(["F", f"{sch}://{h}{r.choice(['/', '/x', '/x/y/z', '/y'])}"])
+        ops.append(["X"])
+        return ops
+
+    def compaction(self):
+        """the heap clean-up of _do_expiration at its threshold (> 100 entries and > 2 x live deadlines), timed against
+        deadlines: n long-lived cookies with a sliding Max-Age refreshed in rounds until the heap is within a few
+        entries of the threshold (on either side), a few short-lived cookies whose deadline passes while nothing
+        touches the jar, then the first operation after the deadline is a small update (which may or may not be the
+        one that crosses the threshold) or a query; afterwards queries long after every short deadline"""
+        r = self.rng
+        host = r.choice(["example.com", "sub.example.com"])
+        url = f"https://{host}/"
+        ops = []
+        n = r.randint(35, 75)
+        k = r.randint(1, 4)
+        long_age = r.choice([3600, 7200, 100000])
+        short = []
+        for i in range(k):
+            self.n += 1
+            short.append({"name": f"s{i}", "value": f"v{self.n}", "maxage": str(r.choice([30, 60, 61, 90])), "path": "/"})
+        def longc(i):
+            return {"name": f"t{i}", "value": "v", "maxage": str(long_age), "path": "/"}
+        first = [longc(i) for i in range(n)]
+        r.shuffle(first)
+        ops.append(["S", url, short + first if r.random() < 0.5 else first + short])
+        heap = n + k
+        live = n + k
+        # refresh rounds: aim at a heap size near max(100, 2*live) from below or just above
+        target = max(101, 2 * live + 1) + r.choice([-6, -3, -2, -1, -1, 0, 0, 1, 2, 5])
+        t = 0
+        while heap < target:
+            dt = r.choice([1, 2, 5, 10])
+            if t + dt >= 28:
+                dt = 0           # stay before the earliest short deadline; equal-time refreshes push nothing
+                break
+            t += dt
+            ops.append(["T", dt])
+            m = min(target - heap, r.randint(1, n))
+            idx = r.sample(range(n), m)
+            ops.append(["S", url, [longc(i) for i in idx]])
+            heap += m
+        x = r.random()
+        if x < 0.5:
+            ops.append(["T", max(1, 29 - t)]); t = max(t + 1, 29)
+            ops.append(["F", url])                   # just before the deadlines: everything still valid
+        # let some or all short deadlines pass with no jar operation in between
+        dt = r.choice([31, 61, 62, 91, 95]) - t if t < 29 else r.choice([2, 32, 33, 62, 70])
+        ops.append(["T", max(1, dt)])
+        y = r.random()
+        if y < 0.75:
+            m = r.randint(1, 6)
+            ops.append(["S", url, [longc(i) for i in r.sample(range(n), m)]])   # may cross the threshold now
+        elif y < 0.85:
+            ops.append(["F", url])
+        else:
+            ops.append(["L"])
+        ops.append(["X"])
+        for dt in (r.choice([1, 40, 100]), 5000, 1000000):
+            ops.append(["T", dt])
+            ops.append(["F", url])
         ops.append(["X"])
         return ops
 
@@ -733,8 +911,33 @@ def classify_under(ref, cands, host, rpath):
 
 
 def judge(ops, allow_ip, fouts):
-    """the direct oracle: compare what the implementation attached with the reference store.
-    returns list of (signature, detail, index of the F op)"""
+    """the direct oracle (see _judge). A disagreement in a history that contains a Set-Cookie with a non-attribute
+    token is attributed to that parser behaviour (its own signature) iff it disappears when the reference store is
+    given the header the way aiohttp's parser reads it."""
+    found, ref_segs = _judge(ops, allow_ip, fouts)
+    if found:
+        kinds = [(oi, k) for oi, op in enumerate(ops) if op[0] == "S" for c in op[2] for k in junk_kinds(c) if k in JUNK_SIG]
+        if kinds:
+            qops = [["S", op[1], [d for c in op[2] for d in as_aiohttp_reads(c)]] if op[0] == "S" else op for op in ops]
+            qmap = {(oi, tk): sg for sg, _, oi, tk in _judge(qops, allow_ip, fouts)[0]}
+            out = []
+            for sig, detail, oi, tk in found:
+                before = [k for i, k in kinds if i < oi]
+                if before:
+                    if (oi, tk) not in qmap:
+                        sig = JUNK_SIG[before[-1]]
+                        detail += " [explained by how the Set-Cookie parser reads the header]"
+                    else:
+                        # still a disagreement with the header read the parser's way: classify it in that reading
+                        sig = qmap[(oi, tk)]
+                out.append((sig, detail, oi, tk))
+            found = out
+    return found, ref_segs
+
+
+def _judge(ops, allow_ip, fouts):
+    """compare what the implementation attached with the reference store.
+    returns list of (signature, detail, index of the F op, token)"""
     ref = RefStore(allow_ip)
     found, fi = [], 0
     ref_segs = []
@@ -803,7 +1006,7 @@ def minimise(ops, allow_ip, token, budget=300):
                 if not shrunk:
                     # drop single attributes that do not matter
                     for j, c in enumerate(cur[i][2]):
-                        for a in ("httponly", "secure", "path", "domain", "maxage", "expires"):
+                        for a in ("junk", "order", "case", "httponly", "secure", "path", "domain", "maxage", "expires"):
                             if a in c:
                                 c2 = {k: v for k, v in c.items() if k != a}
                                 cand = cur[:i] + [["S", cur[i][1], cur[i][2][:j] + [c2] + cur[i][2][j + 1:]]] + cur[i + 1:]
@@ -977,6 +1180,10 @@ def check(ctx):
         one_history(ctx, g.pairs(), rng.random() < 0.2, "pairs", lines, pending)
     for _ in range(12 if q else 300):
         one_history(ctx, g.heap_pressure(), False, "heap-pressure", lines, pending)
+    for _ in range(60 if q else 1500):
+        one_history(ctx, g.compaction(), False, "compaction", lines, pending)
+    for _ in range(400 if q else 10000):
+        one_history(ctx, g.parse_tolerance(), False, "parse-tolerance", lines, pending)
     outs = ctx.model(lines)
     if outs is not None:
         for (what, case, impl), out in zip(pending, outs):
